@@ -1213,3 +1213,251 @@ Example fixed_second_reader_waits :
   exists st ev, exec Fixed (init [[acq_ KW 2]; [acq_ KR 1]; [acq_ KR 1]]) [Run 0; Run 1; Run 2] = Some (st, ev)
                 /\ writers_in st = 1 /\ readers_in st = 0 /\ tids (rl st) = [2] /\ tids (wl st) = [1].
 Proof. eexists. eexists. split; [vm_compute; reflexivity|repeat split; reflexivity]. Qed.
+
+(* ------------------------------------------------------------ statements over whole schedules *)
+Lemma exec_app al sched1 : forall st sched2 st1 ev1,
+  exec al st sched1 = Some (st1, ev1) ->
+  exec al st (sched1 ++ sched2) =
+  match exec al st1 sched2 with Some (st2, ev2) => Some (st2, ev1 ++ ev2) | None => None end.
+Proof.
+  induction sched1 as [|l r IH]; intros st sched2 st1 ev1 H; cbn [exec app] in *.
+  - injection H as <- <-. destruct (exec al st sched2) as [[s e]|]; reflexivity.
+  - destruct (step al st l) as [[sa ea]|]; [|discriminate].
+    destruct (exec al sa r) as [[sb eb]|] eqn:Er; [|discriminate].
+    injection H as <- <-. rewrite (IH _ sched2 _ _ Er).
+    destruct (exec al sb sched2) as [[s e]|]; [rewrite app_assoc|]; reflexivity.
+Qed.
+
+Lemma reach_inv progs sched st ev : exec Fixed (init progs) sched = Some (st, ev) -> Inv st.
+Proof. intro H. eapply exec_inv; [apply init_inv|exact H]. Qed.
+
+Lemma excl_thm progs sched st ev :
+  exec Fixed (init progs) sched = Some (st, ev) ->
+  writers_in st <= 1 /\ (writers_in st = 1 -> readers_in st = 0).
+Proof. intro H. apply inv_excl. eapply reach_inv; exact H. Qed.
+
+Lemma no_error_thm progs sched st ev :
+  exec Fixed (init progs) sched = Some (st, ev) -> err st = false.
+Proof. intro H. apply reach_inv in H as (HI & _). apply (g_err _ HI). Qed.
+
+Lemma no_deadlock_thm progs sched st ev :
+  exec Fixed (init progs) sched = Some (st, ev) ->
+  (exists t, unfinished st t) ->
+  exists t st' ev', enabled st t = true /\ step Fixed st (Run t) = Some (st', ev').
+Proof.
+  intros H Hu. pose proof (reach_inv _ _ _ _ H) as HI.
+  destruct (no_deadlock _ HI Hu) as (t & En). destruct (enabled_run _ _ HI En) as ([st' ev'] & Hr).
+  exists t, st', ev'. split; [exact En|exact Hr].
+Qed.
+
+Lemma cancel_ok_thm progs sched st ev t :
+  exec Fixed (init progs) sched = Some (st, ev) -> unfinished st t ->
+  exists st2 ev2,
+    exec Fixed (init progs) (sched ++ [Cancel t; Run t]) = Some (st2, ev2) /\
+    (exists tk, nth_error (tasks st2) t = Some tk /\ tpc tk = Dead) /\
+    ~ In t (tids (rl st2)) /\ ~ In t (tids (wl st2)).
+Proof.
+  intros H Hu. pose proof (reach_inv _ _ _ _ H) as HI.
+  destruct (cancel_ok _ _ HI Hu) as (st2 & ev2 & Hr & HI2 & tk & Hn & Hd).
+  exists st2, (ev ++ ev2). split.
+  - rewrite (exec_app _ _ _ _ _ _ H). cbn [exec step]. rewrite Hr. rewrite app_nil_r. reflexivity.
+  - split; [exists tk; split; assumption|]. destruct HI2 as (HG & _).
+    split; intro Hin.
+    + apply (proj2 (g_qr _ HG)) in Hin as (tk' & Hn' & Hx). rewrite Hn in Hn'. inversion Hn'; subst.
+      rewrite Hd in Hx. discriminate.
+    + apply (proj2 (g_qw _ HG)) in Hin as (tk' & Hn' & Hx). rewrite Hn in Hn'. inversion Hn'; subst.
+      rewrite Hd in Hx. discriminate.
+Qed.
+
+(* the hypotheses are satisfiable by a run with contention, queueing on both
+   mutexes, a cancellation and a hand-over *)
+Example fixed_run_example :
+  exists st ev,
+    exec Fixed (init [[acq_ KW 1; acq_ KR 0]; [acq_ KR 1]; [acq_ KR 1]; [acq_ KW 0]])
+         [Run 0; Run 1; Run 2; Run 3; Cancel 2; Run 0; Run 1; Run 2; Run 1; Run 3; Run 0] = Some (st, ev)
+    /\ ev = [Enter KW 0; Exit KW 0; Enter KR 1; Exit KR 1; Enter KW 3; Exit KW 3; Enter KR 0; Exit KR 0].
+Proof. eexists. eexists. split; [vm_compute; reflexivity|reflexivity]. Qed.
+
+(* ------------------------------------------------------------ termination *)
+Lemma sum_upd ts t old new :
+  nth_error ts t = Some old ->
+  list_sum (map tm (upd ts t new)) + tm old = list_sum (map tm ts) + tm new.
+Proof.
+  revert t; induction ts as [|y r IH]; intros [|t] H; cbn [nth_error upd map list_sum fold_right] in *; try discriminate.
+  - inversion H; subst. lia.
+  - specialize (IH t H). unfold list_sum in IH. lia.
+Qed.
+
+Lemma pm_pos p : 1 <= pm p.
+Proof. destruct p; cbn; lia. Qed.
+
+(* the task that t ends up as has a budget of at most b *)
+Definition fin_le (st' : state) (t : nat) (b : nat) : Prop :=
+  exists new, nth_error (tasks st') t = Some new /\ tm new <= b.
+
+Lemma fin_set st t x b old :
+  nth_error (tasks st) t = Some old -> tm x <= b -> fin_le (set_task st t x) t b.
+Proof.
+  intros Hn Hb. exists x. split; [cbn [tasks set_task]; eapply nth_error_upd_same; exact Hn|exact Hb].
+Qed.
+
+Lemma leave_fin st t p rest d st' ev old :
+  nth_error (tasks st) t = Some old -> leave st t p rest d = Some (st', ev) -> fin_le st' t (pm rest).
+Proof.
+  intros Hn H. unfold leave in H. destruct (kind_of_pc p) as [k|]; [|discriminate].
+  injection H as <- _. eapply fin_set.
+  - destruct k; unfold unlock_r, unlock_w, release_wl; [destruct (counter st) as [|[|n]]|]; exact Hn.
+  - destruct d; cbn; lia.
+Qed.
+
+Lemma at_cs_fin st t a rest p k st' ev old :
+  nth_error (tasks st) t = Some old -> (p = AtR k \/ p = AtW k) ->
+  at_cs st t a rest p = Some (st', ev) -> fin_le st' t (k + pm rest).
+Proof.
+  intros Hn Hp H. destruct Hp as [-> | ->]; destruct k; cbn [at_cs] in H.
+  - destruct (leave_fin _ _ _ _ _ _ _ _ Hn H) as (x & Hx & Hb). exists x; split; [exact Hx|lia].
+  - injection H as <- _. eapply fin_set; [exact Hn|cbn; lia].
+  - destruct (leave_fin _ _ _ _ _ _ _ _ Hn H) as (x & Hx & Hb). exists x; split; [exact Hx|lia].
+  - injection H as <- _. eapply fin_set; [exact Hn|cbn; lia].
+Qed.
+
+Lemma enter_fin st t k a rest st' ev old :
+  nth_error (tasks st) t = Some old -> enter st t k a rest = Some (st', ev) ->
+  fin_le st' t (ay a + pm rest).
+Proof.
+  intros Hn H. unfold enter in H. apply cons_ev_some in H as (ev0 & H).
+  destruct k.
+  - eapply (at_cs_fin _ t a rest (AtR (ay a)) (ay a) st' ev0); [|left; reflexivity|exact H].
+    cbn [tasks set_task]. eapply nth_error_upd_same; exact Hn.
+  - eapply (at_cs_fin _ t a rest (AtW (ay a)) (ay a) st' ev0); [|right; reflexivity|exact H].
+    cbn [tasks set_task]. eapply nth_error_upd_same; exact Hn.
+Qed.
+
+Lemma hold_both_fin st t a rest st' ev old :
+  nth_error (tasks st) t = Some old -> hold_both st t a rest = Some (st', ev) ->
+  fin_le st' t (ay a + pm rest).
+Proof. intros Hn H. unfold hold_both in H. eapply enter_fin; [|exact H]. exact Hn. Qed.
+
+Lemma hold_rl_fin st t a rest st' ev old :
+  nth_error (tasks st) t = Some old -> hold_rl st t a rest = Some (st', ev) ->
+  fin_le st' t (ay a + 2 + pm rest).
+Proof.
+  intros Hn H. unfold hold_rl in H.
+  assert (Hup : forall s x, tasks s = tasks st -> exists o, nth_error (tasks (set_task s t x)) t = Some o).
+  { intros s x Hs. eexists. cbn [tasks set_task]. rewrite Hs. eapply nth_error_upd_same; exact Hn. }
+  destruct (counter st).
+  - destruct (m_acquire (wl st) t) as [[] m].
+    + destruct (Hup (set_wl st m) (mkTask (a :: rest) HoldBoth false) eq_refl) as (o & Ho).
+      destruct (hold_both_fin _ _ _ _ _ _ _ Ho H) as (x & Hx & Hb). exists x; split; [exact Hx|lia].
+    + injection H as <- _. eapply (fin_set (set_wl st m)); [exact Hn|cbn; lia].
+  - destruct (Hup st (mkTask (a :: rest) HoldBoth false) eq_refl) as (o & Ho).
+    destruct (hold_both_fin _ _ _ _ _ _ _ Ho H) as (x & Hx & Hb). exists x; split; [exact Hx|lia].
+Qed.
+
+Lemma begin_fin st t a rest st' ev old :
+  nth_error (tasks st) t = Some old -> begin Fixed st t a rest = Some (st', ev) ->
+  fin_le st' t (ay a + 3 + pm rest).
+Proof.
+  intros Hn H. unfold begin in H. destruct (ak a).
+  - destruct (m_acquire (rl st) t) as [[] m].
+    + assert (Ho : nth_error (tasks (set_task (set_rl st m) t (mkTask (a :: rest) HoldRL false))) t
+                   = Some (mkTask (a :: rest) HoldRL false))
+        by (cbn [tasks set_task set_rl]; eapply nth_error_upd_same; exact Hn).
+      destruct (hold_rl_fin _ _ _ _ _ _ _ Ho H) as (x & Hx & Hb). exists x; split; [exact Hx|lia].
+    + injection H as <- _. eapply (fin_set (set_rl st m)); [exact Hn|cbn; lia].
+  - destruct (m_acquire (wl st) t) as [[] m].
+    + destruct (enter_fin (set_wl st m) _ _ _ _ _ _ _ Hn H) as (x & Hx & Hb). exists x; split; [exact Hx|lia].
+    + injection H as <- _. eapply (fin_set (set_wl st m)); [exact Hn|cbn; lia].
+Qed.
+
+Lemma run_fin st t tk st' ev :
+  nth_error (tasks st) t = Some tk -> run Fixed st t = Some (st', ev) ->
+  exists new, nth_error (tasks st') t = Some new /\ tm new < tm tk.
+Proof.
+  intros Hn H. unfold run in H. destruct (enabled st t); cbn [negb] in H; [|discriminate].
+  rewrite Hn in H. unfold tm at 2.
+  assert (Hdie : forall s, tasks s = tasks st -> fin_le (die s t tk) t 0).
+  { intros s Hs. unfold die. eapply fin_set; [rewrite Hs; exact Hn|cbn; lia]. }
+  destruct (tpc tk) eqn:Ep; try discriminate.
+  - pose proof (pm_pos (prog tk)) as Hp. destruct (mc tk).
+    + injection H as <- _. destruct (Hdie st eq_refl) as (x & Hx & Hb). exists x; split; [exact Hx|lia].
+    + destruct (prog tk) as [|a rest].
+      * injection H as <- _. eexists; split; [cbn [tasks set_task]; eapply nth_error_upd_same; exact Hn|cbn; lia].
+      * destruct (begin_fin _ _ _ _ _ _ _ Hn H) as (x & Hx & Hb). exists x; split; [exact Hx|cbn [pm]; lia].
+  - destruct (prog tk) as [|a rest]; [discriminate|]. destruct (cancelled_at (rl st) t tk).
+    + injection H as <- _. destruct (Hdie (set_rl st (m_resume (rl st) t true)) eq_refl) as (x & Hx & Hb).
+      exists x; split; [exact Hx|lia].
+    + assert (Ho : nth_error (tasks (set_task (set_rl st (m_resume (rl st) t false)) t (mkTask (a :: rest) HoldRL false))) t
+                   = Some (mkTask (a :: rest) HoldRL false))
+        by (cbn [tasks set_task set_rl]; eapply nth_error_upd_same; exact Hn).
+      destruct (hold_rl_fin _ _ _ _ _ _ _ Ho H) as (x & Hx & Hb). exists x; split; [exact Hx|lia].
+  - destruct (prog tk) as [|a rest]; [discriminate|]. destruct (cancelled_at (wl st) t tk).
+    + injection H as <- _.
+      destruct (Hdie (release_rl (set_wl st (m_resume (wl st) t true))) eq_refl) as (x & Hx & Hb).
+      exists x; split; [exact Hx|lia].
+    + assert (Ho : nth_error (tasks (set_task (set_wl st (m_resume (wl st) t false)) t (mkTask (a :: rest) HoldBoth false))) t
+                   = Some (mkTask (a :: rest) HoldBoth false))
+        by (cbn [tasks set_task set_wl]; eapply nth_error_upd_same; exact Hn).
+      destruct (hold_both_fin _ _ _ _ _ _ _ Ho H) as (x & Hx & Hb). exists x; split; [exact Hx|lia].
+  - destruct (prog tk) as [|a rest]; [discriminate|]. destruct (mc tk).
+    + destruct (leave_fin _ _ _ _ _ _ _ _ Hn H) as (x & Hx & Hb). exists x; split; [exact Hx|lia].
+    + assert (Ho : nth_error (tasks (set_task st t (mkTask (a :: rest) (AtR k) false))) t
+                   = Some (mkTask (a :: rest) (AtR k) false))
+        by (cbn [tasks set_task]; eapply nth_error_upd_same; exact Hn).
+      destruct (at_cs_fin _ _ _ _ _ k _ _ _ Ho (or_introl eq_refl) H) as (x & Hx & Hb).
+      exists x; split; [exact Hx|lia].
+  - destruct (prog tk) as [|a rest]; [discriminate|]. destruct (cancelled_at (wl st) t tk).
+    + injection H as <- _. destruct (Hdie (set_wl st (m_resume (wl st) t true)) eq_refl) as (x & Hx & Hb).
+      exists x; split; [exact Hx|lia].
+    + destruct (enter_fin (set_wl st (m_resume (wl st) t false)) _ _ _ _ _ _ _ Hn H) as (x & Hx & Hb).
+      exists x; split; [exact Hx|lia].
+  - destruct (prog tk) as [|a rest]; [discriminate|]. destruct (mc tk).
+    + destruct (leave_fin _ _ _ _ _ _ _ _ Hn H) as (x & Hx & Hb). exists x; split; [exact Hx|lia].
+    + assert (Ho : nth_error (tasks (set_task st t (mkTask (a :: rest) (AtW k) false))) t
+                   = Some (mkTask (a :: rest) (AtW k) false))
+        by (cbn [tasks set_task]; eapply nth_error_upd_same; exact Hn).
+      destruct (at_cs_fin _ _ _ _ _ k _ _ _ Ho (or_intror eq_refl) H) as (x & Hx & Hb).
+      exists x; split; [exact Hx|lia].
+Qed.
+
+Lemma run_measure st t st' ev : Inv st -> run Fixed st t = Some (st', ev) -> measure st' < measure st.
+Proof.
+  intros (HI & Hst) H.
+  destruct (enabled st t) eqn:En; [|unfold run in H; rewrite En in H; discriminate].
+  destruct (nth_error (tasks st) t) as [tk|] eqn:Hn;
+    [|unfold enabled in En; rewrite Hn in En; discriminate].
+  destruct (run_good _ _ _ _ _ HI (Stable_SE _ t Hst) Hn En H) as (_ & new & Ht & _).
+  destruct (run_fin _ _ _ _ _ Hn H) as (x & Hx & Hlt).
+  rewrite Ht, (nth_error_upd_same _ _ _ _ Hn) in Hx. inversion Hx; subst x.
+  unfold measure. rewrite Ht. pose proof (sum_upd _ _ _ new Hn). lia.
+Qed.
+
+Lemma cancel_measure st t : measure (cancel st t) = measure st.
+Proof.
+  unfold cancel. destruct (nth_error (tasks st) t) as [tk|] eqn:Hn; [|reflexivity].
+  assert (Hf : measure (set_task st t (mkTask (prog tk) (tpc tk) true)) = measure st).
+  { unfold measure. cbn [tasks set_task]. pose proof (sum_upd _ _ _ (mkTask (prog tk) (tpc tk) true) Hn) as Hs.
+    assert (E : tm (mkTask (prog tk) (tpc tk) true) = tm tk) by reflexivity. lia. }
+  destruct (tpc tk); try reflexivity; try exact Hf.
+  - destruct (wst_of (waiters (rl st)) t) as [[]|]; try exact Hf; reflexivity.
+  - destruct (wst_of (waiters (wl st)) t) as [[]|]; try exact Hf; reflexivity.
+  - destruct (wst_of (waiters (wl st)) t) as [[]|]; try exact Hf; reflexivity.
+Qed.
+
+Lemma exec_measure sched : forall st st' ev, Inv st -> exec Fixed st sched = Some (st', ev) ->
+  run_steps sched + measure st' <= measure st.
+Proof.
+  induction sched as [|l r IH]; intros st st' ev HI H; cbn [exec] in H.
+  - injection H as <- _. cbn. lia.
+  - destruct (step Fixed st l) as [[st1 ev1]|] eqn:Es; [|discriminate].
+    destruct (exec Fixed st1 r) as [[st2 ev2]|] eqn:Ee; [|discriminate].
+    injection H as <- _. pose proof (step_inv _ _ _ _ HI Es) as HI1.
+    specialize (IH _ _ _ HI1 Ee). destruct l as [t|t]; cbn [step run_steps] in *.
+    + pose proof (run_measure _ _ _ _ HI Es). lia.
+    + injection Es as <- _. rewrite cancel_measure in IH. lia.
+Qed.
+
+Lemma terminates_thm progs sched st ev :
+  exec Fixed (init progs) sched = Some (st, ev) ->
+  run_steps sched + measure st <= measure (init progs).
+Proof. intro H. eapply exec_measure; [apply init_inv|exact H]. Qed.
